@@ -106,7 +106,10 @@ Pre == IF T.op = "nameBT_mcmc" THEN "NameBT-MCMC" ELSE "SlateBT-MCMC"
 Clause ==
   IF T.error # "" THEN "Error:" \o T.error
   ELSE IF T.op \in {"spatial1d", "spatial", "clustered"} THEN
-       (IF \A i \in DOMAIN Law : SpatialOK(Law[i].flat) THEN "" ELSE "Spatial:Order")
+       (IF ~(\A i \in DOMAIN Law : SpatialOK(Law[i].flat)) THEN "Spatial:Order"
+        (* the one-dimensional model is documented to draw candidates and voters from the standard normal law: every continuous draw   *)
+        (* it requests is logged as <<name, 1000 * location, 1000 * scale>>                                                        *)
+        ELSE IF T.op = "spatial1d" /\ ToSet(T.draws) # {<<"normal", 0, 1000>>} THEN "Spatial:PositionLaw" ELSE "")
   ELSE IF Mcmc /\ ~(\A x \in KRows : RSumF(WOf(x[2])) = R(1)) THEN Pre \o ":RowSum"
   ELSE IF Mcmc /\ ~Markov THEN Pre \o ":NotMarkov"
   ELSE IF Mcmc /\ ~Complete THEN Pre \o ":Incomplete"
